@@ -61,13 +61,43 @@ class ProjectResultRegistry(ProjectRegistry):
         list[Path]
             Paths to previous results with name ``base_name``, ordered by run number.
         """
-        run_name_pattern = re.compile(rf"{re.escape(base_name)}_run_(\d{{4,}})")
+        # ``base_name`` may name a sub folder (e.g. ``sub/model``): its runs live next to each other
+        # in the folder the run folder itself is created in, not at the top level of the registry.
+        run_prefix = self._result_path(f"{base_name}_run_")
+        if run_prefix.parent.is_dir() is False:
+            return []
+        run_name_pattern = re.compile(rf"{re.escape(run_prefix.name)}(\d{{4,}})")
         runs = []
-        for path in self.directory.iterdir():
+        for path in run_prefix.parent.iterdir():
             match = run_name_pattern.fullmatch(path.name)
             if match is not None:
                 runs.append((int(match.group(1)), path))
         return [path for _, path in sorted(runs)]
+
+    def _result_path(self, name: str) -> Path:
+        """Get the path of the result folder ``name`` inside of the registry directory.
+
+        Parameters
+        ----------
+        name: str
+            Name of a result (folder), may contain sub folders.
+
+        Returns
+        -------
+        Path
+            The path of the result folder.
+
+        Raises
+        ------
+        ValueError
+            Raised if ``name`` is not a relative path inside of the registry directory.
+        """
+        relative_path = Path(name)
+        if relative_path.is_absolute() or ".." in relative_path.parts:
+            raise ValueError(
+                f"Result path {name!r} is not a relative path inside of the results folder."
+            )
+        return self._directory / relative_path
 
     def _latest_result_path_fallback(self, name: str, *, latest: bool = False) -> Path:
         """Fallback when a user forgets to specify the run to get a result.
@@ -103,9 +133,10 @@ class ProjectResultRegistry(ProjectRegistry):
                     ),
                     stacklevel=3,
                 )
-            previous_result_paths = self.previous_result_paths(name) or [Path(name)]
-            name = previous_result_paths[-1].name
-        path = self._directory / name
+            previous_result_paths = self.previous_result_paths(name)
+            if previous_result_paths:
+                name = previous_result_paths[-1].relative_to(self._directory).as_posix()
+        path = self._result_path(name)
         if self.is_item(path):
             return path
 
@@ -129,7 +160,7 @@ class ProjectResultRegistry(ProjectRegistry):
         previous_results = self.previous_result_paths(base_name)
         if not previous_results:
             return f"{base_name}_run_0000"
-        latest_result_run_nr = int(previous_results[-1].name.replace(f"{base_name}_run_", ""))
+        latest_result_run_nr = int(previous_results[-1].name.rsplit("_run_", 1)[1])
         return f"{base_name}_run_{latest_result_run_nr+1:04}"
 
     def save(self, name: str, result: Result):
